@@ -562,8 +562,9 @@ func (s *Stream) cleanup() {
 	s.mu.Lock()
 	defer s.mu.Unlock()
 	s.closed = true
-	s.msgAssembler = nil // Release the buffer
-	close(s.sendQueue)   // Close send channel
+	// the message assembler belongs to the receive goroutine, which may still be handling a packet while the
+	// connection stops: it is not touched here and is released together with the stream
+	close(s.sendQueue) // Close send channel
 }
 
 // IsSelf() returns if the peer address public key equals the self public key
